@@ -644,8 +644,19 @@ fn gen_case(batch: &str, _index: u64, seed: u64) -> Case {
     let y: Vec<f64>;
     if task == "clf" {
         let kcls = pr.usize_in(2, 4).min(n);
-        let label_sets: [&[f64]; 5] = [&[0.0, 1.0, 2.0, 3.0], &[-1.0, 1.0, 5.0, 7.0], &[2.5, -3.0, 10.0, 11.0], &[1.0, 2.0, 3.0, 4.0], &[-7.0, -2.0, 0.0, 100.0]];
-        let ls = label_sets[pr.below(5) as usize];
+        // label values are arbitrary reals: also sets whose members share an integer part (0.25 / 0.75,
+        // -0.5 / 0.5) and large or tiny magnitudes
+        let label_sets: [&[f64]; 8] = [
+            &[0.0, 1.0, 2.0, 3.0],
+            &[-1.0, 1.0, 5.0, 7.0],
+            &[2.5, -3.0, 10.0, 11.0],
+            &[1.0, 2.0, 3.0, 4.0],
+            &[-7.0, -2.0, 0.0, 100.0],
+            &[0.25, 0.75, 1.0, 1.5],
+            &[-0.5, 0.5, 0.1, 2.0],
+            &[1e6, 1000000.5, -1e-3, 1e-3],
+        ];
+        let ls = label_sets[pr.below(8) as usize];
         let skew = pr.chance(0.4);
         let mut yy: Vec<f64> = (0..n)
             .map(|i| {
